@@ -31,7 +31,12 @@ func (cit *CallIterator) M__next__() (Object, error) {
 		return nil, err
 	}
 
-	if value == cit.sentinel {
+	// the sentinel is recognised by equality, like python does
+	eq, err := Eq(value, cit.sentinel)
+	if err != nil {
+		return nil, err
+	}
+	if eq == True {
 		return nil, StopIteration
 	}
 
